@@ -108,8 +108,35 @@ def dhw_cogen_building(rng):
     return b
 
 
+def partly_covered_heat_pump(rng):
+    """a heat pump (or solar thermal system) whose ambient-heat use is only partly covered by the production declared for the same
+    system: the automatic completion is the uncovered remainder, step by step — a derived quantity that must scale with the inputs"""
+    b = gen.Building()
+    n = rng.choice([1, 2, 3, 12])
+    b.n = n
+    cr, src = rng.choice([("EAMBIENTE", "EAMBIENTE"), ("TERMOSOLAR", "TERMOSOLAR")])
+    use = [gen.dy(rng, 64, 64 * 300) for _ in range(n)]
+    prod = [x * Fraction(rng.randint(0, 80), 64) for x in use]      # below the use at most steps, above it at some
+    b.add("CONSUMO", id=1, service=rng.choice(["CAL", "ACS"]), carrier=cr, values=use)
+    b.add("PRODUCCION", id=1, source=src, values=prod)
+    b.add("CONSUMO", id=1, service="CAL", carrier="ELECTRICIDAD", values=[x / 3 if False else x / 4 for x in use])
+    if rng.random() < 0.5:
+        b.add("PRODUCCION", id=2, source="EL_INSITU", values=[gen.dy(rng, 0, 64 * 100) for _ in range(n)])
+    b.tags.add("partly_covered_onsite_heat")
+    return b
+
+
 def make_pairs(rng, count):
     pairs = []
+    for i in range(max(2, count // 12)):
+        fspec, user = {"loc": rng.choice(core.LOCS)}, {}
+        k, area, lm = gen.gen_params(rng)
+        b = partly_covered_heat_pump(rng)
+        base = epflow.EpCase("h%d" % i, {"text": text_of(b)}, fspec, user, [(k, area, False)], tags=b.tags)
+        kap = rng.choice([Fraction(1, 128), Fraction(1, 16), Fraction(8), Fraction(1024)])
+        vb = metacheck.scale_building(b, kap)
+        v = epflow.EpCase("h%dk" % i, {"text": text_of(vb)}, fspec, user, [(k, area, False)], tags=b.tags)
+        pairs.append((base, [(v, relate_pow2_exact(kap), "partly covered on-site heat, energy x %s (exact)" % kap)]))
     for i in range(max(2, count // 16)):
         # the part of the cogenerated electricity that goes to DHW crosses 0.01 kWh between the two scales; every declared value
         # stays >= 0.01 kWh
